@@ -105,6 +105,8 @@ def gen_case(rng: random.Random, tier: str) -> dict:
         dup = dict(src, name=rng.choice(["dup/", "other dir/", "z/y/"]) + os.path.basename(src["name"]))
         members.insert(rng.randrange(len(members) + 1), dup)
     spec = {"fmt": fmt, "members": members}
+    if fmt.startswith("tar"):
+        spec["tar_format"] = rng.choice(["pax", "pax", "gnu", "gnu", "ustar"])  # the three header dialects tarfile (and GNU tar / bsdtar) write
     if fmt == "zip":
         spec["zip_method"] = rng.choice(["stored", "deflated"])
     if fmt == "7z":
